@@ -14,11 +14,11 @@ Proof.
   destruct (list_string_eqb dep (gen_deprecated jl)) eqn:E2; [|discriminate]. intros E3.
   repeat split; apply list_string_eqb_eq; assumption.
 Qed.
-Lemma chk_files_regenerate_sound f1 f2 f3 jl je : chk_files_regenerate f1 f2 f3 jl je = true ->
-  gen_licenses_file jl = f1 /\ gen_deprecated_file jl = f2 /\ gen_exceptions_file je = f3.
+Lemma chk_files_regenerate_sound tl td te f1 f2 f3 jl je : chk_files_regenerate tl td te f1 f2 f3 jl je = true ->
+  gen_licenses_file tl jl = f1 /\ gen_deprecated_file td jl = f2 /\ gen_exceptions_file te je = f3.
 Proof.
-  unfold chk_files_regenerate. destruct (String.eqb (gen_licenses_file jl) f1) eqn:E1; [|discriminate].
-  destruct (String.eqb (gen_deprecated_file jl) f2) eqn:E2; [|discriminate]. intros E3.
+  unfold chk_files_regenerate. destruct (String.eqb (gen_licenses_file tl jl) f1) eqn:E1; [|discriminate].
+  destruct (String.eqb (gen_deprecated_file td jl) f2) eqn:E2; [|discriminate]. intros E3.
   repeat split; apply String.eqb_eq; assumption.
 Qed.
 Lemma chk_ids_parse_sound T : chk_ids_parse T = true ->
